@@ -874,19 +874,19 @@ def run_trace_distance(case):
     if ketket:
         # the documented shortcut sqrt(1-|<a|b>|^2) is ill-conditioned at 0: compare the squares
         e = close(got ** 2, 1 - abs(np.vdot(a, b)) ** 2, EXACT64, "definition", fn="trace_distance", types=types)
-        e = max(e, close(got, ref, 1e-6, "definition", fn="trace_distance", types=types, clause="vs-trace-norm"))
+        e = max(e, 1e-3 * close(got, ref, SQRT64, "definition", fn="trace_distance", types=types, clause="vs-trace-norm"))
     else:
         e = close(got, ref, 1e-8, "definition", fn="trace_distance", types=types, isherm=case["isherm"])
     gs = call(qb, qa)
-    e = max(e, close(gs, got, 1e-6 if ketket else 1e-8, "symmetry", fn="trace_distance", types=types))
+    e = max(e, (1e-3 if ketket else 1) * close(gs, got, SQRT64 if ketket else 1e-8, "symmetry", fn="trace_distance", types=types))
     if got < 0 or got > 1 + 1e-8:
         raise Violation("bound", fn="trace_distance", got=got, types=types)
-    if rel == "same" and got > 1e-6:
+    if rel == "same" and got > SQRT64:
         raise Violation("T(r,r)=0", fn="trace_distance", got=got, types=types)
     if case["useed"] is not None:
         W = runitary(np.random.default_rng(case["useed"]), case["D"])
         g2 = call(to_q(apply_unitary(a, W)), to_q(apply_unitary(b, W)))
-        e = max(e, close(g2, ref, 1e-6 if ketket else 1e-8, "invariance", fn="trace_distance", types=types))
+        e = max(e, (1e-3 if ketket else 1) * close(g2, ref, SQRT64 if ketket else 1e-8, "invariance", fn="trace_distance", types=types))
     # Fuchs - van de Graaf with the (unsquared) fidelity
     F = real_scalar(qu.fidelity(qa, qb), "fidelity")
     dF = fid_tol(a, b, ma, mb, case["D"]) / 10
@@ -959,8 +959,9 @@ def run_tr_sqrt(case):
         if meta["rank"] is None:
             raise Reject("rank not known by construction")
         got = real_scalar(qu.tr_sqrt(to_q(x), rank=min(D, meta["rank"] + case["extra"])), "tr_sqrt")
-    e = close(got, ref, SQRT64, "definition", fn="tr_sqrt", mode=mode)
-    if got < 1 - SQRT64 or got > math.sqrt(D) + SQRT64:
+    tol = max(SQRT64, 1e-6 * D)  # every exactly-zero eigenvalue may contribute sqrt(1e-17)
+    e = SQRT64 / tol * close(got, ref, tol, "definition", fn="tr_sqrt", mode=mode)
+    if got < 1 - tol or got > math.sqrt(D) + tol:
         raise Violation("bound", fn="tr_sqrt", got=got)
     return {"nt": (meta["rank"] or 2) >= 2, "cls": ["mode=" + mode, "kind=" + meta["kind"]], "err": e}
 
@@ -1092,8 +1093,11 @@ def run_discord(case):
         swapped = o_discord(o_rdm(x, dims, [sb, sa]))
         if sa > sb and abs(got - swapped) <= tol:
             raise Violation("sysa-sysb-order-ignored", fn="quantum_discord", n=n, order="sysa>sysb")
+        if got > ref:
+            # the library's single-start COBYLA run ended in a local minimum of its own objective
+            raise Violation("above-global-minimum", fn="quantum_discord", got=got, want=ref, n=n, kind=meta["kind"])
         raise Violation("definition", fn="quantum_discord", got=got, want=ref, n=n, order="sysa>sysb" if sa > sb else "sysa<sysb",
-                        kind=meta["kind"], above=bool(got > ref))
+                        kind=meta["kind"])
     if got < -1e-6:
         raise Violation("bound", fn="quantum_discord", got=got)
     return {"nt": ref > 1e-4, "cls": ["kind=" + meta["kind"], "n=%d" % n, "sa>sb" if sa > sb else "sa<sb"], "err": err}
@@ -1445,6 +1449,42 @@ def run_pauli_decomp(case):
         for nm in names:
             e = max(e, close(res2[nm], res[nm], EXACT64, "ket==projector", floor=mag, fn="pauli_decomp"))
     return {"nt": n >= 2, "cls": ["n=%d" % n, "kind=" + meta["kind"]], "err": e}
+
+
+# ---------------------------------------------------------------------------
+# 20b. bell_decomp (same decomp() engine with kets as the basis: overlaps <B|rho|B>)
+# ---------------------------------------------------------------------------
+
+_c = 2.0 ** -0.5
+BELL = [np.array([0, _c, -_c, 0]), np.array([0, _c, _c, 0]), np.array([_c, 0, 0, -_c]), np.array([_c, 0, 0, _c])]  # documented order
+
+
+@st.composite
+def s_bell_decomp(draw, tier):
+    m = draw(st.sampled_from([1, 1, 2]))
+    return {"m": m, "state": draw(s_state(4 ** m))}
+
+
+def run_bell_decomp(case):
+    qu = Q()
+    import itertools
+
+    m = case["m"]
+    x, meta = make_state(case["state"], [4] * m)
+    rho = o_dop(x)
+    res = qu.bell_decomp(to_q(x, real=case["state"]["real"]), mode="c")
+    names = ["".join(str(k) for k in p) for p in itertools.product(range(4), repeat=m)]
+    if sorted(res.keys()) != sorted(names):
+        raise Violation("names", fn="bell_decomp", got=sorted(res.keys())[:5])
+    e = 0.0
+    tot = 0.0
+    for nm in names:
+        b = kron_all([BELL[int(c)].reshape(-1, 1) for c in nm]).reshape(-1)
+        want = np.real(np.vdot(b, rho @ b))
+        e = max(e, close(res[nm], want, EXACT64, "coefficient", fn="bell_decomp", name=nm))
+        tot += float(np.real(complex(res[nm])))
+    e = max(e, close(tot, 1.0, EXACT64, "overlaps-sum-to-trace", fn="bell_decomp"))
+    return {"nt": not meta["product"], "cls": ["m=%d" % m, "kind=" + meta["kind"]], "err": e}
 
 
 # ---------------------------------------------------------------------------
@@ -1994,6 +2034,8 @@ SUBCHECKS = [
              rule="dephase vs (1-p) rho + p 1/d; rand_rank int/float: diagonal dephaser with the stated number of equal entries; trace 1; nt: p>0"),
     SubCheck("pauli_decomp", run_pauli_decomp, s_pauli_decomp, examples=(60, 1200), shards=(1, 4),
              rule="pauli_decomp(mode='c') of kets, density operators, hermitian operators on 1-4 qubits: names, coefficients tr(rho P)/2^n, reconstruction, ordering, ket==projector; nt: n>=2"),
+    SubCheck("bell_decomp", run_bell_decomp, s_bell_decomp, examples=(80, 1500), shards=(1, 4),
+             rule="bell_decomp(mode='c') on one or two qubit pairs: names in the documented enumeration, coefficients <B|rho|B>, sum = 1; nt: non-product"),
     SubCheck("correlation", run_correlation, s_correlation, examples=(200, 4000), shards=(1, 4),
              rule="correlation(A,B,sysa,sysb) on qubit and qudit registers, any order of sites, sparse flag / sparse operators / precomp vs <AB>-<A><B> with embed; ket==projector; symmetry; product -> 0; nt: non-product n>=3"),
     SubCheck("pauli_correlations", run_pauli_corr, s_pauli_corr, examples=(100, 2000), shards=(1, 4),
